@@ -20,6 +20,8 @@ pub struct Script {
     pub timeout_ms: u64,
     pub probe_id: u32,
     pub notes: Vec<String>,
+    pub stalled: std::collections::BTreeSet<usize>,
+    pub last_served: Vec<usize>,
 }
 
 fn noop(opaque: u32) -> Vec<u8> {
@@ -51,7 +53,7 @@ fn read_for(s: &mut TcpStream, ms: u64) -> (Vec<u8>, bool) {
 
 impl Script {
     pub fn new() -> Script {
-        Script { server: None, conns: BTreeMap::new(), timeout_ms: 1000, probe_id: 0, notes: vec![] }
+        Script { server: None, conns: BTreeMap::new(), timeout_ms: 1000, probe_id: 0, notes: vec![], stalled: Default::default(), last_served: vec![] }
     }
 
     pub fn exec(&mut self, line: &str) -> String {
@@ -77,7 +79,8 @@ impl Script {
             ["probe"] => {
                 self.probe_id += 1;
                 let pid = self.probe_id;
-                let ids: Vec<usize> = self.conns.keys().cloned().collect();
+                // a connection stalled in the middle of a request cannot be probed (the noop would become part of it)
+                let ids: Vec<usize> = self.conns.keys().cloned().filter(|i| !self.stalled.contains(i)).collect();
                 for i in &ids {
                     let _ = self.conns.get_mut(i).unwrap().write_all(&noop((pid << 8) | *i as u32));
                 }
@@ -103,10 +106,36 @@ impl Script {
                     pending = still;
                 }
                 served.sort();
+                self.last_served = served.clone();
                 format!("served {}", served.iter().map(|i| i.to_string()).collect::<Vec<_>>().join(" ")).trim_end().to_string()
+            }
+            ["stall", i, how] => {
+                // part of a request, then silence: only the idle timeout can end this connection
+                let i: usize = i.parse().unwrap();
+                if !self.last_served.contains(&i) {
+                    return "ok".into(); // only a served connection can stall in the middle of a request
+                }
+                if let Some(s) = self.conns.get_mut(&i) {
+                    let b = match *how {
+                        "oversize" => {
+                            let mut f = wire::set_like(op::SET, b"k", b"", 0, 0, 0, 5);
+                            f.body_len = Some(ITEM_LIMIT + 500);
+                            let mut b = f.bytes();
+                            b.extend(vec![7u8; 100]);
+                            b
+                        }
+                        "header" => wire::set_like(op::SET, b"k", b"0123456789", 0, 0, 0, 5).bytes()[..10].to_vec(),
+                        _ => wire::set_like(op::SET, b"k", b"0123456789", 0, 0, 0, 5).bytes()[..30].to_vec(),
+                    };
+                    let _ = s.write_all(&b);
+                    self.stalled.insert(i);
+                }
+                std::thread::sleep(Duration::from_millis(5));
+                "ok".into()
             }
             ["end", i, how] => {
                 let i: usize = i.parse().unwrap();
+                self.stalled.remove(&i);
                 if let Some(mut s) = self.conns.remove(&i) {
                     match *how {
                         "close" => {}
@@ -147,7 +176,9 @@ impl Script {
             [idle, keep @ ..] if *idle == "idle" => {
                 // everybody stays silent for longer than the idle timeout, except the connections kept alive
                 let keep: Vec<usize> = keep.iter().filter_map(|k| k.parse().ok()).collect();
-                let total = self.timeout_ms + 450;
+                // long enough for every connection served at the start to time out (their timers started at most a probe
+                // earlier), short enough that none picked up meanwhile does (its timer starts when it is served)
+                let total = self.timeout_ms + 150;
                 let slice = self.timeout_ms / 3;
                 let t0 = Instant::now();
                 while (t0.elapsed().as_millis() as u64) < total {
@@ -171,6 +202,9 @@ impl Script {
                     let (_, eof) = read_for(s, 5);
                     if eof {
                         self.conns.remove(&i);
+                        self.stalled.remove(&i);
+                    } else if self.stalled.contains(&i) {
+                        self.notes.push(format!("connection {} was served, sent part of a request and then stayed silent for {} ms (idle timeout {} ms): the server has not closed it, its slot is not returned", i, total, self.timeout_ms));
                     }
                 }
                 "ok".into()
@@ -199,10 +233,17 @@ pub fn gen_script(rng: &mut Rng) -> Vec<String> {
             let i = open.remove(idx);
             let how = *rng.pick(&["close", "close", "quit", "quitq", "mid", "proto", "oversize"]);
             ops.push(format!("end {} {}", i, how));
-        } else if idles < 1 {
+        } else if idles < 1 && !open.is_empty() {
             idles += 1;
+            ops.push("probe".into());
+            for i in open.iter() {
+                if rng.chance(1, 3) {
+                    ops.push(format!("stall {} {}", i, rng.pick(&["mid", "oversize", "header"])));
+                }
+            }
             // keep a random subset alive
-            let keep: Vec<u64> = open.iter().cloned().filter(|_| rng.chance(1, 3)).collect();
+            let stalled_now: Vec<u64> = ops.iter().filter_map(|o| o.strip_prefix("stall ").and_then(|r| r.split(' ').next().unwrap().parse().ok())).collect();
+            let keep: Vec<u64> = open.iter().cloned().filter(|i| !stalled_now.contains(i) && rng.chance(1, 3)).collect();
             ops.push(format!("idle {}", keep.iter().map(|k| k.to_string()).collect::<Vec<_>>().join(" ")).trim_end().to_string());
             ops.push("probe".into());
             // the harness learns who is still open from the probe; the generator keeps everyone nominally open:
